@@ -43,6 +43,7 @@ type parked struct {
 	faults  []string
 	since   time.Time
 	stalled bool
+	stalledUntil time.Time
 	// liveness accounting: true when the call is one the "responsive world"
 	// promise covers (everything except client waits).
 	world bool
@@ -159,6 +160,7 @@ type World struct {
 	capReason      string
 	bootedInc      int
 	bootOK         map[int]bool
+	memStatus      func() int // in-memory status of the pipeline in the live incarnation (0 = unknown)
 	drawTrace      []uint64
 	clientsRunning int
 	notes          []string
@@ -268,6 +270,11 @@ func (w *World) park(ctx context.Context, kind, ent string, inc int, enabled fun
 		since:   time.Now(),
 		world:   !strings.HasPrefix(kind, "cl."),
 	}
+	if w.or != nil && inc == w.inc {
+		w.mu.Unlock()
+		w.or.onPark(w, kind)
+		w.mu.Lock()
+	}
 	if inc != 0 && inc != w.inc {
 		// the incarnation this goroutine belongs to has crashed: frozen for ever
 		w.frozen = append(w.frozen, p)
@@ -329,7 +336,10 @@ func (w *World) enabledList() []enabledItem {
 	items := make([]enabledItem, 0, len(w.parked)+1)
 	for k, p := range w.parked {
 		if p.stalled {
-			continue
+			if time.Now().Before(p.stalledUntil) {
+				continue
+			}
+			p.stalled = false // the slow peer finally answers
 		}
 		items = append(items, enabledItem{k, p})
 	}
@@ -411,6 +421,9 @@ func (w *World) Run() {
 			// declared fault: the call is never served; only its context can end it
 			w.mu.Lock()
 			p.stalled = true
+			// an unresponsive peer: not served for a long (simulated) while; a call with a
+			// context ends earlier when that context is cancelled (force stop, teardown)
+			p.stalledUntil = time.Now().Add(time.Duration(30+ch.A%600) * time.Second)
 			w.parked[ch.K] = p
 			w.faultFired["stall"]++
 			w.mu.Unlock()
@@ -537,6 +550,9 @@ func (w *World) choose(items []enabledItem) Choice {
 			if !ok || pct <= 0 {
 				continue
 			}
+			if f == "db.err" && w.cfg.FaultOnlyKeys != "" && !strings.HasPrefix(it.p.ent, w.cfg.FaultOnlyKeys) {
+				continue
+			}
 			if w.rng.IntN(1000) < pct {
 				c.F = f
 				w.faultsLeft--
@@ -587,4 +603,17 @@ func mix64(x uint64) uint64 {
 	x *= 0x94d049bb133111eb
 	x ^= x >> 31
 	return x
+}
+
+// worldParkedEnabled counts parked seam calls the world could serve right now.
+func (w *World) worldParkedEnabled() int {
+	w.mu.Lock()
+	defer w.mu.Unlock()
+	n := 0
+	for _, p := range w.parked {
+		if p.world && !p.stalled && (p.enabled == nil || p.enabled()) {
+			n++
+		}
+	}
+	return n
 }
